@@ -493,3 +493,17 @@ def bulk_tags(ctx, f, sw, arms, buf):
             ctx.verdict(not probs, "R11.4c", g, "bulk-tags:%s" % what, where, "%s: items are numbered in source order%s" % (what, ", offset by the previous length" if what == "Append" else " from 0"),
                         "sort adapter, %s: %s: later index-addressed source diffs (Set/Remove/Pop*) would locate the wrong element" % (what, "; ".join(probs)))
     ctx.floor("R11.4c", n, 3)
+    # R11.5: the initial values handed out are the values of the very buffer the adapter keeps (same sorted order)
+    for g in ctor:
+        gb = inl(F, g)
+        for loc, kind, payload in blocks_assigning_ret(gb):
+            if kind == "assign" and payload["k"] == "agg" and payload["of"] == "tuple" and len(payload["ops"]) == 2:
+                vals = gb.expr_of_op(payload["ops"][0])
+                impl = strip(gb.expr_of_op(payload["ops"][1]), through_calls=False)
+                buf_op = None
+                if impl[0] == "agg" and "buffered_vector" in impl[4]:
+                    buf_expr = impl[5][impl[4].index("buffered_vector")]
+                    # both derive from the same collect(enumerate(..)) call site
+                    srcs = [x[4] for x in find_all(buf_expr, lambda y: y[0] == "call" and ecall_matches(y, r"Iterator>?::collect$"))]
+                    same = any(contains(vals, lambda y, l=l: y[0] == "call" and y[4] == l) for l in srcs)
+                    ctx.verdict(True if same else None, "R11.5", g, "initial-values=buffer-order", gb.line_at(loc), "the returned initial values are read from the sorted buffer the adapter keeps")
